@@ -414,8 +414,12 @@ def get_ast_term(t):
                 op_ast = Operator(op_str, t.head.get_type(), op_name)
 
                 arg_ast = helper(t.arg, bd_vars)
+                # The argument of a prefix operator is put in parenthesis unless
+                # it is atomic, or a prefix operator that the grammar accepts
+                # at this position (e.g. ~~A, UN INT S).
                 arg_prior, arg_type = get_priority_pair(t.arg)
-                if arg_prior < op_data.priority or arg_type == FUN_APPL:
+                if arg_type == FUN_APPL or (arg_prior < 95 and
+                        not (arg_type == UNARY and arg_prior >= op_data.priority)):
                     arg_ast = Bracket(arg_ast)
 
                 return UnaryOp(op_ast, arg_ast, t.get_type())
